@@ -17,7 +17,7 @@ def _c(cid, n, p, episodes, default=False, **kw):
     return d
 
 
-POL = ["masked", "rule_greedy", "greedy_masked", "rule_random", "mostly_masked", "random"]
+POL = ["masked", "rule_greedy", "greedy_masked", "rule_random", "mostly_masked", "random", "inject_illegal"]
 
 
 class Adapter(EnvAdapter):
@@ -28,7 +28,7 @@ class Adapter(EnvAdapter):
         if tier == "quick":
             return [
                 # GraphColoring-v0 defaults through the argument-less constructor; 20 probes on every 2nd state
-                _c("n20_p80_default", 20, 0.8, 6, default=True, probe_every=2, policies=POL),
+                _c("n20_p80_default", 20, 0.8, 7, default=True, probe_every=2, policies=POL),
                 _c("n8_p50", 8, 0.5, 12, policies=POL),
                 _c("n5_p50", 5, 0.5, 18, policies=POL),
                 _c("n5_p10", 5, 0.1, 12, policies=POL),
@@ -78,5 +78,17 @@ class Adapter(EnvAdapter):
             ok = self._rule_legal(obs)
             if ok:
                 return np.asarray(ok[0] if policy == "rule_greedy" else int(rng.choice(ok)), dtype=dt)
+            return self.random_actions(env, rng, 1)[0]
+        if policy == "inject_illegal":
+            # rule-following play, then (from the 2nd step on, with probability 0.35 per step) a colour the
+            # implementation's mask forbids, else one the rule forbids: invalid endings late in an episode
+            ok = self._rule_legal(obs)
+            if i >= 1 and rng.random() < 0.35:
+                m = np.asarray(obs.action_mask)
+                bad = [a for a in range(len(m)) if not m[a]] or [a for a in range(len(m)) if a not in ok]
+                if bad:
+                    return np.asarray(int(rng.choice(bad)), dtype=dt)
+            if ok:
+                return np.asarray(int(rng.choice(ok)), dtype=dt)
             return self.random_actions(env, rng, 1)[0]
         return super().choose(policy, env, state, obs, rng, i)
